@@ -3,6 +3,8 @@
 /repo or /verif: K scratch copies (worktree of /repo + copy of the harness, JBKV_VERIF_DIR) under /tmp/rs.
 
   replayseeds.py [K] [name-filter-regex]     results appended to /tmp/rs/results.txt, summary at the end
+  replayseeds.py K @jobs.txt                 lines "<name> <patch> <check>..."; results in /tmp/rs2/results.txt
+  RS_REV=<commit>                            use the harness as committed there instead of the working tree
 
 A regression check of the harness itself (did a later strengthening lose an earlier detection?); it is
 not one of the registered checks. Scratch trees are removed at the end.
@@ -14,7 +16,7 @@ K = int(sys.argv[1]) if len(sys.argv) > 1 else 3
 #   <name> <patch file> <check id> [<check id> ...]     (every named check is run; scratch root /tmp/rs2)
 JOBSFILE = sys.argv[2][1:] if len(sys.argv) > 2 and sys.argv[2].startswith("@") else None
 FILT = re.compile(sys.argv[2]) if len(sys.argv) > 2 and not JOBSFILE else None
-RS = "/tmp/rs2" if JOBSFILE else "/tmp/rs"
+RS = os.environ.get("RS_ROOT", "/tmp/rs2" if JOBSFILE else "/tmp/rs")
 
 
 def sh(cmd, cwd=None, env=None, timeout=3600):
@@ -30,9 +32,16 @@ def setup(k):
     assert rc == 0, out
     v = f"{root}/verif"
     os.makedirs(v)
-    for d in ["harness", "shim", "regress", "corpus", ".cargo"]:
-        shutil.copytree(f"/verif/{d}", f"{v}/{d}", ignore=shutil.ignore_patterns("target", "fuzz"))
-    shutil.copy("/verif/known_findings.txt", f"{v}/known_findings.txt")
+    rev = os.environ.get("RS_REV")
+    if rev:
+        # the harness as committed at <rev> (to measure what an earlier harness catches)
+        rc, out = sh(f"git -C /verif archive {rev} harness shim regress corpus .cargo known_findings.txt | tar -x -C {v}")
+        assert rc == 0, out
+        shutil.rmtree(f"{v}/harness/fuzz", ignore_errors=True)
+    else:
+        for d in ["harness", "shim", "regress", "corpus", ".cargo"]:
+            shutil.copytree(f"/verif/{d}", f"{v}/{d}", ignore=shutil.ignore_patterns("target", "fuzz"))
+        shutil.copy("/verif/known_findings.txt", f"{v}/known_findings.txt")
     for d in ["evidence", "replays", "target"]:
         os.makedirs(f"{v}/{d}", exist_ok=True)
     t = open(f"{v}/harness/Cargo.toml").read().replace('path = "/repo"', f'path = "{root}/repo"')
